@@ -184,8 +184,31 @@ fn run_case(case: &J) -> J {
     let src = case.get("src").and_then(|x| x.as_str()).unwrap_or("").to_string();
     let syn = case.get("syntax").and_then(|x| x.as_str()).unwrap_or("jsx").to_string();
     let opts_text = case.get("options").and_then(|x| x.as_str()).unwrap_or("{}").to_string();
+    let mut rec = run_one(case.get("id").cloned().unwrap_or(J::Null), &src, &syn, &opts_text);
+    // an alternative run of the same case (other options and/or other source) for paired properties
+    let src_alt = case.get("src_alt").and_then(|x| x.as_str());
+    let opts_alt = case.get("options_alt").and_then(|x| x.as_str());
+    if src_alt.is_some() || opts_alt.is_some() {
+        let alt = run_one(J::Null, src_alt.unwrap_or(&src), &syn, opts_alt.unwrap_or(&opts_text));
+        if let J::Obj(m) = alt {
+            let keep: Vec<(String, J)> = m
+                .into_iter()
+                .filter(|(k, _)| matches!(k.as_str(), "status" | "output" | "diags" | "printed" | "unres" | "options" | "options_error" | "reparse_ok"))
+                .collect();
+            if let J::Obj(r) = &mut rec {
+                r.push(("alt".into(), J::Obj(keep)));
+            }
+        }
+    }
+    rec
+}
+
+fn run_one(id: J, src: &str, syn: &str, opts_text: &str) -> J {
+    let src = src.to_string();
+    let syn = syn.to_string();
+    let opts_text = opts_text.to_string();
     let mut rec: Vec<(String, J)> = vec![];
-    rec.push(("id".into(), case.get("id").cloned().unwrap_or(J::Null)));
+    rec.push(("id".into(), id));
     rec.push(("syntax".into(), J::s(&syn)));
     rec.push(("options_text".into(), J::s(&opts_text)));
 
@@ -369,7 +392,19 @@ fn main() {
                 tok.write_all(s.as_bytes()).unwrap();
                 // the side file for the orchestrator: everything except the big trees
                 if let J::Obj(m) = rec {
-                    let small: Vec<(String, J)> = m.into_iter().filter(|(k, _)| k != "input" && k != "output" && k != "output2").collect();
+                    let small: Vec<(String, J)> = m
+                        .into_iter()
+                        .filter(|(k, _)| k != "input" && k != "output" && k != "output2")
+                        .map(|(k, v)| {
+                            if k == "alt" {
+                                if let J::Obj(a) = v {
+                                    return (k, J::Obj(a.into_iter().filter(|(k2, _)| k2 != "output").collect()));
+                                }
+                                return (k, J::Null);
+                            }
+                            (k, v)
+                        })
+                        .collect();
                     let mut t = String::new();
                     J::Obj(small).to_json(&mut t);
                     writeln!(js, "{}", t).unwrap();
